@@ -5,7 +5,7 @@ from . import tygen as TG
 from . import gencrate as GC
 from . import datacases as D
 
-THEOREMS = ["C06_no_panic", "C06_valid", "C06_len", "C06_suffix", "C06_total", "C06_valid_refuted_bulk_bool", "C06_len_refuted_before_F7"]
+THEOREMS = ["C06_no_panic", "C06_valid", "C06_len", "C06_suffix", "C06_total", "C06_valid_refuted_bulk_bool", "C06_len_refuted_before_F7", "C06_schema_section_no_panic"]
 HEADER = D.HEADER.replace("HarnessTy.", "HarnessTy Packed PackedDec HarnessC6.").replace(
     "From SF Require Import", "From SFX Require Import Extracted.\nFrom SF Require Import")
 
@@ -214,7 +214,7 @@ def run(chk, tier, seed):
           ("F7", "kf vec_overflow", "bulk Vec<u32> reader: elem_size * num_elems unchecked (debug: overflow panic; release: a Vec claiming 2^62+1 elements over 4 bytes)"),
           ("F14", "kf systemtime_panic", "SystemTime from an untrusted u128 panics (overflow adding duration)"),
           ("F13", "kf bitvec_setlen", "BitVec claims 1000 bits over one storage word (set_len beyond storage)"),
-          ("K2c", "kf trait_name_panic", "a stored schema containing a trait name with an unknown +segment panics plain load::<u32>")]
+          ("F17", "kf trait_name_panic", "a stored schema containing a trait name with an unknown +segment panics plain load::<u32>")]
     listed = {e["id"]: e for e in C.known_findings("C06")}
     kobs = C.run_harness(binary, ["%s %s" % (k, l) for k, l, _ in KF])
     for kid, line, what in KF:
